@@ -7,6 +7,12 @@ use futures_buffered::FuturesUnordered;
 use futures_lite::StreamExt;
 use pin_project::pin_project;
 
+/// Upper limit for the number of elements pre-allocated from a stream's
+/// `size_hint`. The hint is only a hint: its upper bound may be arbitrarily
+/// loose (e.g. `usize::MAX`) and adapters such as `take` pass it through, so
+/// only the guaranteed lower bound is used, and never more than this.
+const PREALLOC_MAX: usize = 1024;
+
 /// Conversion from a [`ConcurrentStream`]
 #[allow(async_fn_in_trait)]
 pub trait FromConcurrentStream<A>: Sized {
@@ -22,7 +28,7 @@ impl<T> FromConcurrentStream<T> for Vec<T> {
         S: IntoConcurrentStream<Item = T>,
     {
         let stream = iter.into_co_stream();
-        let mut output = Vec::with_capacity(stream.size_hint().1.unwrap_or_default());
+        let mut output = Vec::with_capacity(stream.size_hint().0.min(PREALLOC_MAX));
         stream.drive(VecConsumer::new(&mut output)).await;
         output
     }
@@ -34,7 +40,7 @@ impl<T, E> FromConcurrentStream<Result<T, E>> for Result<Vec<T>, E> {
         S: IntoConcurrentStream<Item = Result<T, E>>,
     {
         let stream = iter.into_co_stream();
-        let mut output = Ok(Vec::with_capacity(stream.size_hint().1.unwrap_or_default()));
+        let mut output = Ok(Vec::with_capacity(stream.size_hint().0.min(PREALLOC_MAX)));
         stream.drive(ResultVecConsumer::new(&mut output)).await;
         output
     }
